@@ -544,7 +544,9 @@ func c08Run(ctx *core.Ctx) {
 		}
 	}
 	// part B: names
-	nameSet := []string{"a", "b", "", "$x", "'q'", `"q"`, `a"b`, "'", `''`, "x y", "ä"}
+	nameSet := []string{"a", "b", "", "$x", "'q'", `"q"`, `a"b`, "'", `''`, "x y", "ä",
+		// quoted names with the quote character inside, mixed quotes, one-sided quotes
+		`'a'b'`, `"a"b"`, `'''`, `"""`, `''x'`, `'a"`, `"a'`, `'ab`, `ab'`, "a$", " 'q'"}
 	for _, n1 := range nameSet {
 		if ctx.Mine() {
 			execNew(newCase{Cols: []colSpec{{Name: n1, Kind: "ints", Len: 1}}})
@@ -691,7 +693,7 @@ func c08Run(ctx *core.Ctx) {
 			}
 		}
 		// Copy
-		for _, dst := range []string{"a", "b", "c", "new", "zz", "", "$x", "'q'"} {
+		for _, dst := range []string{"a", "b", "c", "new", "zz", "", "$x", "'q'", `'a'b'`, `"""`, `'a"`} {
 			for _, src := range []string{"a", "b", "c", "zz", ""} {
 				if ctx.Mine() {
 					execProj(projCase{Shape: shape, Op: "copy", Cols: []string{dst, src}})
